@@ -30,6 +30,8 @@ def parseMode : String → Option Mode
   | "f" => some .forceReset
   | _ => none
 
+def bigReader : Reader := { chunk := 2 ^ 40 }
+
 def parseOp (tok : String) : Option Op :=
   match tok.splitOn ":" with
   | ["tx", ws, c] => do pure (.tx (← parseWrites ws) (c == "c"))
@@ -38,8 +40,12 @@ def parseOp (tok : String) : Option Op :=
   | ["snapu", k, ws] => do pure (.snapUpd (← k.toNat?) (← parseWrites ws))
   | ["snapf"] => some .snapFail
   | ["stream", k] => do pure (.stream (← k.toNat?))
-  | ["rest", k] => do pure (.restore (← k.toNat?) false)
-  | ["restr", k] => do pure (.restore (← k.toNat?) true)
+  | ["rest", k] => do pure (.restore (← k.toNat?) bigReader)       -- bytes.Buffer: everything, then (0, EOF)
+  | ["restr", k] => do pure (.restore (← k.toNat?) bigReader)      -- *os.File
+  | ["restr", k, pre, chunk, e] => do
+    let pre ← if pre == "-" then some [] else (pre.splitOn "+").mapM (·.toNat?)
+    let c ← if chunk == "w" then some (2 ^ 40) else chunk.toNat?
+    pure (.restore (← k.toNat?) { pre := pre, chunk := c - 1, eofWithData := e == "d" })
   | ["gsid"] => some .gsid
   | ["gtl", m, ok] => do pure (.gtl (← parseMode m) (ok == "1"))
   | ["listen"] => some .listen
